@@ -61,7 +61,7 @@ pub fn c13_def() -> PropDef {
     PropDef {
         id: "C13",
         level: "exploration",
-        rule: "proptest cfg (4..5 real nodes through the real node.rs wiring, per-link keyed delays 5..45 ms i.e. well below the 1 s timeout, batch parameters, seeds) + tape -> clients submit 1..60 transactions of 10..150 bytes to tape-chosen nodes at tape-chosen instants, or (one case in six) a burst of 150..400 transactions that each seal a batch of their own, back to back, so that the proposers hold a backlog of hundreds of digests; variant (half of the cases): one victim never receives the batch broadcasts of one creator (frames on that mempool link are dropped, so the creator reaches its quorum elsewhere and drops the handle) and, in half of those, the victim's batch requests to one peer are dropped too (unresponsive first sync target -> retry with other peers). No crashes; cases in which a Timeout/TC nevertheless appears are outside the property's domain and are skipped (counted). Oracle after a quiescence horizon (extended by up to 30 virtual seconds while some node's highest committed round is more than 6 below another's: the property sets no deadline for the recovery of a node that lacks a batch, and recovery may have to wait for the consensus synchronizer's 5 s retry tick): every submitted transaction occurs in a batch whose digest is in the payload of a block that is in every node's commit sequence, and re-opening every node's store (Store::new on the same path) returns exactly that batch's bytes; commit sequences are pairwise prefix-consistent; the victim's highest committed round is within 6 rounds of the others' and it sent a BatchRequest and stored the batch it had missed. Non-trivial: transactions went to >= 2 nodes and >= 3 non-empty blocks were committed, or (variant) a batch was fetched by request; distinct by (delays, load pattern) hash.",
+        rule: "proptest cfg (4..5 real nodes through the real node.rs wiring, per-link keyed delays 5..45 ms i.e. well below the 1 s timeout, batch parameters, seeds) + tape -> clients submit 1..60 transactions of 10..150 bytes to tape-chosen nodes at tape-chosen instants, or (one case in six) a burst of 150..400 transactions that each seal a batch of their own, back to back, so that the proposers hold a backlog of hundreds of digests; variant (half of the cases): one victim never receives the batch broadcasts of one creator (frames on that mempool link are dropped, so the creator reaches its quorum elsewhere and drops the handle) and, in half of those, the victim's batch requests to one peer are dropped too (unresponsive first sync target -> retry with other peers). In a third of the unresponsive-target cases the creator keeps receiving a transaction every 300 ms for 14 s after the generated load, and the victim's highest committed round must grow during the last 12 s of that phase (a retry that only works once the node is idle does not count). No crashes; cases in which a Timeout/TC nevertheless appears are outside the property's domain and are skipped (counted). Oracle after a quiescence horizon (extended by up to 30 virtual seconds while some node's highest committed round is more than 6 below another's: the property sets no deadline for the recovery of a node that lacks a batch, and recovery may have to wait for the consensus synchronizer's 5 s retry tick): every submitted transaction occurs in a batch whose digest is in the payload of a block that is in every node's commit sequence, and re-opening every node's store (Store::new on the same path) returns exactly that batch's bytes; commit sequences are pairwise prefix-consistent; the victim's highest committed round is within 6 rounds of the others' and it sent a BatchRequest and stored the batch it had missed. Non-trivial: transactions went to >= 2 nodes and >= 3 non-empty blocks were committed, or (variant) a batch was fetched by request; distinct by (delays, load pattern) hash.",
         assumptions: &[
             "no faults other than the dropped mempool link of the variant; delays below a quarter of the round timeout",
             "the commit channel is observed through the real Node::commit receiver",
@@ -118,6 +118,20 @@ fn c13_run(case: &Case, _ctx: &Ctx) -> Outcome {
     let creator = (victim + 1 + t.below(n - 1)) % n;
     let unresponsive = variant && t.chance(1, 2);
     let deaf = (victim + 1 + t.below(n - 1)) % n;
+    // sustained load (a third of the unresponsive-target cases, never together with a burst): after the
+    // generated load the creator keeps receiving one transaction every 300 ms for 14 s, so that the
+    // victim keeps missing batches while it waits for an earlier one. Its commits must keep growing
+    // during that phase: a retry mechanism that only works once the node is idle does not count.
+    let sustained = unresponsive && !burst && t.chance(1, 3);
+    let base_plan_len = plan.len();
+    if sustained {
+        for k in 0..47u64 {
+            let mut tx = vec![1u8; 30];
+            tx[1..9].copy_from_slice(&(10_000 + k).to_be_bytes());
+            tx[9] = creator as u8;
+            plan.push((creator, tx, 300));
+        }
+    }
     let dir = sim::scratch_dir("c13");
     let _g = sim::ScratchGuard(dir.clone());
     let real: Vec<usize> = (0..n).collect();
@@ -140,11 +154,17 @@ fn c13_run(case: &Case, _ctx: &Ctx) -> Outcome {
         cluster::start_real_nodes(w2, &real, &dir2, &params2).await;
         tokio::time::sleep(ms(20)).await;
         let mut conns = Conns::default();
-        for (node, tx, gap) in plan2 {
+        for (k, (node, tx, gap)) in plan2.into_iter().enumerate() {
+            if sustained && k == base_plan_len {
+                sim::log(Ev::Note("sustained-start".into()));
+            }
             if gap > 0 {
                 tokio::time::sleep(ms(gap)).await;
             }
             let _ = conns.tx(200 + node as u32, node, tx).await;
+        }
+        if sustained {
+            sim::log(Ev::Note("sustained-end".into()));
         }
         tokio::time::sleep(ms(horizon_ms)).await;
         // The property sets no deadline for a node that lacks a batch ("obtains it ... and then resumes
@@ -218,6 +238,14 @@ fn c13_run(case: &Case, _ctx: &Ctx) -> Outcome {
             }
         }
     }
+    let note_time = |name: &str| log.iter().find_map(|e| match &e.ev {
+        Ev::Note(n) if n == name => Some(e.t_us),
+        _ => None,
+    });
+    let sustained_window = match (note_time("sustained-start"), note_time("sustained-end")) {
+        (Some(a), Some(b)) if b > a + 2_000_000 => Some((a + 2_000_000, b)),
+        _ => None,
+    };
     let hist = |extra: Value| {
         // what the victim's mempool sent and was sent (batch requests and the batches answering them)
         let vid = victim as u32 + 1;
@@ -269,6 +297,20 @@ fn c13_run(case: &Case, _ctx: &Ctx) -> Outcome {
         }
         json!({"n": n, "variant": variant, "victim": victim, "creator": creator, "unresponsive": unresponsive, "deaf": deaf, "detail": extra, "commits": render_commits(&commits), "victim_mempool_traffic": traffic})
     };
+    // sustained load: the victim's commits keep growing while batches keep coming
+    if let Some((a, b)) = sustained_window {
+        out.class("sustained-load-while-victim-misses-batches");
+        let vid = victim as u32 + 1;
+        let top = |until: u64| commits.get(&vid).map_or(0, |v| v.iter().filter(|(t, _, _)| *t <= until).map(|(_, _, bl)| bl.round).max().unwrap_or(0));
+        let others_grew = commits.iter().filter(|(k, _)| **k != vid).all(|(_, v)| v.iter().any(|(t, _, _)| *t > a));
+        if others_grew && top(b) <= top(a) {
+            out.violate(
+                "victim-stalled-under-sustained-load",
+                format!("the victim's highest committed round stayed at {} for the {} ms of sustained load (the others kept committing); it resumes only once the load stops", top(a), (b - a) / 1000),
+                hist(json!(null)),
+            );
+        }
+    }
     // pairwise consistency
     let ids: Vec<u32> = chains.keys().copied().collect();
     for i in 0..ids.len() {
